@@ -32,30 +32,44 @@ Qs == {<<0, 1>>, <<1, 10>>, <<1, 4>>, <<1, 3>>, <<1, 2>>, <<2, 3>>, <<3, 4>>, <<
 Methods == {"linear", "lower", "higher", "midpoint"}
 Dyadic(q) == q[2] \in {1, 2, 4}
 
-\* value at sorted 0-based rank r
-At(r) == SV[r + 1]
+\* value at sorted 0-based rank r of the ascending sequence sv
+QuantAtOf(sv, lo, hi, fr, m) ==      \* fr = fractional part as a rational
+    CASE m = "linear"   -> QAdd(QInt(sv[lo + 1]), QMul(QInt(sv[hi + 1] - sv[lo + 1]), fr))
+      [] m = "lower"    -> QInt(sv[lo + 1])
+      [] m = "higher"   -> QInt(sv[hi + 1])
+      [] m = "midpoint" -> QN(sv[lo + 1] + sv[hi + 1], 2)
 
-QuantAt(lo, hi, fr, m) ==      \* fr = fractional part as a rational
-    CASE m = "linear"   -> QAdd(QInt(At(lo)), QMul(QInt(At(hi) - At(lo)), fr))
-      [] m = "lower"    -> QInt(At(lo))
-      [] m = "higher"   -> QInt(At(hi))
-      [] m = "midpoint" -> QN(At(lo) + At(hi), 2)
-
-DefQuantile(q, m) ==
-    IF n = 0 THEN ENull
-    ELSE LET num == (n - 1) * q[1]
+\* the quantile of the ascending sequence sv (a function of the sorted valid values only)
+QuantileOf(sv, q, m) ==
+    LET nn == Len(sv) IN
+    IF nn = 0 THEN ENull
+    ELSE LET num == (nn - 1) * q[1]
              lo  == num \div q[2]
              exact == num % q[2] = 0
              hi  == IF exact THEN lo ELSE lo + 1
              fr  == QN(num - lo * q[2], q[2])
-             main == EQ(QuantAt(lo, hi, fr, m))
+             main == EQ(QuantAtOf(sv, lo, hi, fr, m))
          IN  IF exact /\ ~Dyadic(q)
              THEN \* (n-1)q is an integer but q is not a binary fraction: the float index may
                   \* land one ulp on either side (DESIGN 5.5)
                   <<5, main>>
-                  \o (IF lo >= 1 THEN <<EQ(QuantAt(lo - 1, lo, <<1, 1>>, m))>> ELSE <<>>)
-                  \o (IF lo + 1 <= n - 1 THEN <<EQ(QuantAt(lo, lo + 1, <<0, 1>>, m))>> ELSE <<>>)
+                  \o (IF lo >= 1 THEN <<EQ(QuantAtOf(sv, lo - 1, lo, <<1, 1>>, m))>> ELSE <<>>)
+                  \o (IF lo + 1 <= nn - 1 THEN <<EQ(QuantAtOf(sv, lo, lo + 1, <<0, 1>>, m))>> ELSE <<>>)
              ELSE main
+
+At(r) == SV[r + 1]
+QuantAt(lo, hi, fr, m) == QuantAtOf(SV, lo, hi, fr, m)
+DefQuantile(q, m) == QuantileOf(SV, q, m)
+
+\* units of measurement (see Laws1.tla): a quantile is homogeneous of degree 1 in the unit of the
+\* series (sorting commutes with a positive unit), ranks and percentiles of score of degree 0
+ScaleQ(e, u) == CASE e[1] = 1 -> EQ(QMul(<<e[2], e[3]>>, <<u, 1>>))
+                  [] e[1] = 5 -> <<5>> \o [j \in 1..(Len(e) - 1) |-> EQ(QMul(<<e[j + 1][2], e[j + 1][3]>>, <<u, 1>>))]
+                  [] OTHER -> e
+QuantileHomogeneous ==
+    \A u \in {2, 3}, q \in Qs, m \in Methods :
+        QuantileOf([j \in 1..n |-> u * SV[j]], q, m) = ScaleQ(DefQuantile(q, m), u)
+OrderDeg == [quantile |-> 1, pct_of |-> 0, ranks |-> 0, partition |-> 1]
 
 \* the code's path for q > 1/2: select from the top with q' = 1 - q
 DescAt(r) == SV[n - r]
